@@ -17,11 +17,11 @@ failed=set(re.findall(r'^\s*\d+ - (\S+) \(', open(sys.argv[1]).read(), re.M))
 bad=sorted(failed & stable)
 print("ctest with patch: failed stable tests:", bad if bad else "none", "| other failures:", sorted(failed-stable))
 P
-mkdir -p /tmp/confirm_demo && cd /tmp/confirm_demo && rm -rf ./* && cp "$D"/demo.cxx "$D"/build_demo.sh . 2>/dev/null; cp "$D"/*.h "$D"/*.hv "$D"/*.hs "$D"/*.par . 2>/dev/null
+DD=/tmp/confirm_demo_$(basename $W); mkdir -p $DD && cd $DD && rm -rf ./* && cp "$D"/demo.cxx "$D"/build_demo.sh . 2>/dev/null; cp "$D"/*.h "$D"/*.hv "$D"/*.hs "$D"/*.par . 2>/dev/null
 bash ./build_demo.sh $W >> "$LOG" 2>&1; ( timeout 900 ./demo > demo.with.out 2>&1 ); r1=$?
 echo "demo WITH change: exit=$r1 :: $(tail -n 2 demo.with.out | tr '\n' ' ' | cut -c1-300)" | tee -a "$LOG"
 git -C $W checkout -q -- . ; ninja -C $W/_b >> "$LOG" 2>&1
 bash ./build_demo.sh $W >> "$LOG" 2>&1; ( timeout 900 ./demo > demo.without.out 2>&1 ); r2=$?
 echo "demo WITHOUT change: exit=$r2 :: $(tail -n 1 demo.without.out | cut -c1-200)" | tee -a "$LOG"
-cd /; rm -rf /tmp/confirm_demo
+cd /; rm -rf $DD
 [ $r1 -ne 0 ] && [ $r2 -eq 0 ] && echo "CONFIRMED" | tee -a "$LOG"
